@@ -8,11 +8,13 @@ import re
 from collections import namedtuple
 
 from ural.get_hostname import get_hostname
+from ural.patterns import ASCII
 from ural.utils import pathsplit, safe_urlsplit
 
 INSTAGRAM_POST_SHORTCODE_RE = re.compile(r"^[a-zA-Z0-9_\-]+$")
 INSTAGRAM_USERNAME_RE = re.compile(r"^[a-zA-Z0-9_\-\.]+$")
-INSTAGRAM_DOMAIN_RE = re.compile(r"(?:^|\.)instagram\.com$", re.I)
+# NOTE: ascii-only case folding, else "\u0131nstagram.com" (dotless i) is taken for instagram.com
+INSTAGRAM_DOMAIN_RE = re.compile(r"(?:^|\.)instagram\.com$", re.I | ASCII)
 INSTAGRAM_NOT_A_USER_SET = {
     "accounts",
     "ads",
